@@ -111,6 +111,14 @@ M1 ==
     /\ tgt = [acls |-> [E0_in |-> v4], intfs |-> [E0 |-> I("", "E0_in", "")], routes |-> {}, xe |-> FALSE,
               parts |-> [v4 |-> v4, v6 |-> <<>>, pre |-> pre, app |-> app]]
 
+(* M2L: the same merge on a device that already holds an ACL over the lines of all parts *)
+M2L ==
+  \E a \in RandomSubset(60, InjSeqs(V4Pool \cup PrePool \cup AppPool, 3)), dn \in {"E0_in", "E0_in-DRC-0"},
+     v4 \in InjSeqs(V4Pool, MaxLen), pre \in SeqsUpTo(PrePool, 2), app \in SeqsUpTo(AppPool, 2) :
+    /\ dev = Cfg([n \in {dn} |-> a], [E0 |-> I("", dn, "")], {}, FALSE)
+    /\ tgt = [acls |-> [E0_in |-> v4], intfs |-> [E0 |-> I("", "E0_in", "")], routes |-> {}, xe |-> FALSE,
+              parts |-> [v4 |-> v4, v6 |-> <<>>, pre |-> pre, app |-> app]]
+
 (* F1L: longer ACLs (up to MaxLen lines over 8 overlapping ACEs): a seeded random sample of the  *)
 (* pairs, drawn by TLC (Randomization!RandomSubset, seed = tlc -seed)                             *)
 PoolL == Pool \cup {Ace("permit", "ip", T("host", "h2"), T("host", "h4")), Ace("permit", "udp53", T("net", "n34"), T("any", ""))}
@@ -145,10 +153,10 @@ VCfg(es, name, sfx, foreign) ==
                   IF n \in DOMAIN facls THEN facls[n] ELSE IF n \in DOMAIN base THEN base[n] ELSE fgn[n]]
       cm    == [k \in {CmKey(name, x) : x \in S} |->
                   LET x == CHOOSE y \in S : k = CmKey(name, y) IN
-                  [name |-> name, seq |-> x, peers |-> {es[x].peer},
+                  [name |-> name, seq |-> x, typ |-> "ipsec-isakmp", peers |-> {es[x].peer},
                    fin |-> IF es[x].fin = "" THEN "" ELSE FName(x, "in", sfx),
                    fout |-> IF es[x].fout = "" THEN "" ELSE FName(x, "out", sfx)]]
-      fcm   == IF foreign THEN [k \in {"OTHER 1"} |-> [name |-> "OTHER", seq |-> 1, peers |-> {"p3"}, fin |-> "foreign", fout |-> ""]]
+      fcm   == IF foreign THEN [k \in {"OTHER 1"} |-> [name |-> "OTHER", seq |-> 1, typ |-> "ipsec-isakmp", peers |-> {"p3"}, fin |-> "foreign", fout |-> ""]]
                ELSE NoFn
       cmaps == [k \in DOMAIN cm \cup DOMAIN fcm |-> IF k \in DOMAIN cm THEN cm[k] ELSE fcm[k]]
       intfs == IF foreign THEN [i \in {"E0", "E2"} |-> I("", IF i = "E0" THEN "E0_in" ELSE "", "")]
@@ -163,7 +171,21 @@ V1L ==
     /\ dev = VCfg(ed, nm, sfx, foreign)
     /\ tgt = VCfg(et, "VPN", "", FALSE)
 
-Init == CASE Fam = "V1L" -> V1L [] Fam = "F1L" -> F1L [] Fam = "M1" -> M1 [] Fam = "F1" -> F1 [] Fam = "F3" -> F3 [] Fam = "F4" -> F4 [] Fam = "F7" -> F7 [] Fam = "F8" -> F8
+(* V2: a `crypto map ... gdoi` (not supported by Netspoc) bound to managed interfaces must stay, *)
+(* while the ACLs of these interfaces are changed                                                *)
+V2 ==
+  \E a, b \in InjSeqs(Pool, 2), two \in BOOLEAN, vpn \in BOOLEAN :
+    LET is == IF two THEN {"E0", "E1"} ELSE {"E0"}
+        gd == [k \in {"GD 10"} |-> [name |-> "GD", seq |-> 10, typ |-> "gdoi", peers |-> {}, fin |-> "", fout |-> ""]]
+        \* optionally the target wants an ordinary crypto map at E1 (where the device has the gdoi map or nothing)
+        tv == IF vpn /\ two THEN [k \in {"VPN 1"} |-> [name |-> "VPN", seq |-> 1, typ |-> "ipsec-isakmp", peers |-> {"p1"}, fin |-> "", fout |-> ""]] ELSE NoFn
+    IN /\ (vpn => two)
+       /\ dev = [acls |-> [E0_in |-> a], intfs |-> [i \in is |-> I("", IF i = "E0" THEN "E0_in" ELSE "", "")], routes |-> {}, xe |-> FALSE,
+                 cmaps |-> gd, ifcm |-> [i \in is |-> IF i = "E0" \/ ~vpn THEN "GD" ELSE ""]]
+       /\ tgt = [acls |-> [E0_in |-> b], intfs |-> [i \in is |-> I("", IF i = "E0" THEN "E0_in" ELSE "", "")], routes |-> {}, xe |-> FALSE,
+                 cmaps |-> tv, ifcm |-> [i \in is |-> IF i = "E1" /\ vpn THEN "VPN" ELSE ""]]
+
+Init == CASE Fam = "M2L" -> M2L [] Fam = "V2" -> V2 [] Fam = "V1L" -> V1L [] Fam = "F1L" -> F1L [] Fam = "M1" -> M1 [] Fam = "F1" -> F1 [] Fam = "F3" -> F3 [] Fam = "F4" -> F4 [] Fam = "F7" -> F7 [] Fam = "F8" -> F8
 Next == UNCHANGED <<dev, tgt>>
 Out == PrintT(<<"VOUT", ToJson([fam |-> Fam, dev |-> dev, tgt |-> tgt, tie |-> FALSE])>>)
 =============================================================================
